@@ -192,6 +192,9 @@ Definition adv_vertex (a : advanced) (pos : qpt) (id : Z) (left : bool) : advanc
       | (side', t', None) => (side', opp_ev, t')
       end
     else (side_ev, opp_ev, a_tess a1) in
+  (* flush_side reset the reference point to the last vertex: fold the new vertex in again *)
+  let side_ev :=
+    set_ref_x side_ev (if left then Qmax (px (se_ref side_ev)) (px pos) else Qmin (px (se_ref side_ev)) (px pos)) in
   let side_ev := se_push side_ev (mkMV pos id left) in
   if left then mkAdv tess side_ev opp_ev else mkAdv tess opp_ev side_ev.
 
